@@ -9,7 +9,8 @@ TRACE_MODULE = "FilterTrace"
 TRACE_CFG = "FilterTrace.cfg"
 RULE = ("random acyclic glyph sets (3-7 glyphs, depth <= 3, affine palette incl. mirrors/shear/rotation, k/4 coordinates "
         "with ties) x {Decompose, DecomposeTransformed, Flatten, SkipExport, Transformations, PropagateAnchors} x include "
-        "specifications x {defcon, ufoLib2}; a case is non-trivial when the filter modified at least one glyph; distinct by "
+        "specifications x {defcon, ufoLib2}; one case in four applies PropagateAnchors to a glyph set shaped for it (accented composites, "
+        "ligatures, ligature marks, nested composites, own anchors incl. prefix matches, mark categories); a case is non-trivial when the filter modified at least one glyph; distinct by "
         "(filter, include, glyph set) digest")
 ASSUMPTIONS = [
     "TLC evaluates the TLA+ operators correctly; fontTools pens are the environment of the filters",
@@ -53,6 +54,73 @@ def _filter_spec(rng, names, glyphs):
     return spec
 
 
+def propagate_glyphset(rng):
+    """Glyph set shaped for anchor propagation: bases and marks with anchors (line-only outlines on whole units), accented
+    composites (base + marks), ligatures of bases (numbered anchors), ligature marks (marks only: the component closest to
+    the origin is promoted), nested composites, composites that already own an anchor (also one that is only a PREFIX
+    match, e.g. own 'top_1' against inherited 'top'), mark categories."""
+    from ..absfont import MS, PS
+
+    def boxc(x0, y0, w, h):
+        return [[x0 * PS, y0 * PS, "line"], [(x0 + w) * PS, y0 * PS, "line"], [(x0 + w) * PS, (y0 + h) * PS, "line"], [x0 * PS, (y0 + h) * PS, "line"]]
+
+    def anc(n, x, y):
+        return {"n": n, "x": x * PS, "y": y * PS}
+
+    pal = [[MS, 0, 0, MS]] * 4 + [[-MS, 0, 0, MS], [MS, 0, 0, -MS], [MS // 2, 0, 0, MS // 2], [0, MS, -MS, 0]]
+    glyphs = {}
+    bases = rng.sample(["a", "e", "o", "f", "i"], rng.randint(2, 4))
+    for b in bases:
+        an = [anc(c, rng.randint(0, 20) * 25, rng.randint(-4, 32) * 25) for c in rng.sample(["top", "bottom", "ogonek", "top_2"], rng.randint(0, 3))]
+        glyphs[b] = {"cs": [boxc(rng.randint(0, 4) * 25, 0, 300, 500)], "comps": [], "anchors": an, "w": 500 * PS, "h": 0, "u": []}
+    marks = rng.sample(["acutecomb", "gravecomb", "dotbelowcomb", "ringcomb"], rng.randint(2, 3))
+    for m in marks:
+        cls = "bottom" if m == "dotbelowcomb" else "top"
+        an = [anc("_" + cls, rng.randint(-4, 4) * 25, rng.randint(0, 8) * 25)]
+        if rng.random() < 0.7:
+            an.append(anc(cls, rng.randint(-4, 4) * 25, rng.randint(8, 16) * 25))
+        if rng.random() < 0.2:
+            an.append(anc("_ogonek", 0, 0))
+        cs = [boxc(rng.randint(-6, 2) * 25, rng.randint(-4, 8) * 25, 100, 100)] if rng.random() < 0.93 else []
+        glyphs[m] = {"cs": cs, "comps": [], "anchors": an, "w": 0, "h": 0, "u": []}
+
+    def comp(b):
+        return {"b": b, "m": list(rng.choice(pal)), "d": [rng.randint(-8, 16) * 25 * PS, rng.randint(-8, 16) * 25 * PS]}
+
+    made = []
+    for _ in range(rng.randint(3, 6)):
+        kind = rng.choice(["accented", "accented", "ligature", "ligmark", "ligmark", "nested"])
+        if kind == "accented":
+            name = rng.choice(bases) + rng.choice(["acute", "grave", "dotbelow", "x"]) + rng.choice(["", ".alt"])
+            comps = [comp(rng.choice(bases))] + [comp(rng.choice(marks)) for _ in range(rng.randint(1, 2))]
+        elif kind == "ligature":
+            name = "_".join(rng.sample(bases, 2)) + rng.choice(["", ".liga"])
+            comps = [comp(b) for b in (rng.sample(bases, 2) if rng.random() < 0.8 else rng.sample(bases + marks, 3))]
+        elif kind == "ligmark":
+            ms = rng.sample(marks, 2)
+            name = "_".join(ms) if rng.random() < 0.85 else "".join(ms)      # without "_" it is not a ligature mark
+            comps = [comp(m) for m in ms]
+        else:
+            if not made:
+                continue
+            name = rng.choice(made) + ".nest"
+            comps = [comp(name[:-5])] + ([comp(rng.choice(marks))] if rng.random() < 0.5 else [])
+        if name in glyphs:
+            continue
+        own = []
+        if rng.random() < 0.3:
+            own.append(anc(rng.choice(["top", "top_1", "bottom", "topright", "_top"]), rng.randint(0, 8) * 25, rng.randint(0, 8) * 25))
+        glyphs[name] = {"cs": [], "comps": comps, "anchors": own, "w": 500 * PS, "h": 0, "u": []}
+        made.append(name)
+    cats = {}
+    if rng.random() < 0.6:
+        for n in glyphs:
+            if n in marks or (n in made and all(c["b"] in marks for c in glyphs[n]["comps"])):
+                if rng.random() < 0.85:
+                    cats[n] = "mark"
+    return glyphs, ({"public.openTypeCategories": cats} if cats else {})
+
+
 def cases(tier, seed):
     n = 240 if tier == "quick" else 4000
     rng = random.Random(seed * 7919 + 15)
@@ -63,6 +131,20 @@ def cases(tier, seed):
         spec = _filter_spec(rng, names, glyphs)
         step = {"glyphs": glyphs, "info": {"capHeight": rng.choice([700, 701]), "xHeight": rng.choice([500, 499])},
                 "separate": rng.random() < 0.85}
+        if k % 4 == 3:
+            from ..absfont import Inexact, check_exact_domain
+
+            for _try in range(50):
+                glyphs, lib = propagate_glyphset(rng)
+                try:
+                    check_exact_domain(glyphs)
+                    break
+                except Inexact:
+                    continue
+            names = sorted(glyphs)
+            spec = _filter_spec(rng, names, glyphs)
+            spec = {"name": "PropagateAnchors", "include": spec["include"]}
+            step.update({"glyphs": glyphs, "lib": lib})
         out.append({"cid": f"c15-{seed}-{k}", "lib": rng.choice(["ufoLib2", "defcon"]), "filter": spec,
                     "steps": [step], "again": spec["name"] == "PropagateAnchors"})
     return out
